@@ -83,21 +83,10 @@ def _enclosing_fn(n):
     return p
 
 
-def run(ctx, report):
-    mod = ctx.mod('expression')
-    hlp = ctx.mod('expr_helper')
-    M = Matrix(mod)
-    report.explanation = (
-        'Field/method matrix over the 8 IR node classes of expression.py: D1 __hash__ fields are a subset of __eq__ fields, '
-        '__eq__ compares every constructor field (metadata table excepted) pairwise with the same field of the other operand and '
-        'tests the class, __ne__ is its negation; D2 copy() and visit() rebuild from all fields, recurse into every '
-        'sub-expression field, copy() never returns self, every visit is wrapped by visit_chk; D3 replace_expr/copy go through visit; '
-        'D4 every operand-reordering call site is control-dependent on membership in a list of commutative operators.')
-    report.not_decided = 'value preservation for concrete valuations (behaviour of the callbacks), sharing inside non-node containers.'
-    report.analysed['matrix'] = dict((c, {'fields': M.fields[c], 'expr_fields': M.expr_fields(c), 'eq_fields': M.eq_fields(c)})
-                                     for c in NODE_CLASSES)
-
-    R1 = report.rule('C15.D1', 'eq/hash coherence per node class', floor=8)
+def eq_rule(ctx, R1, mod=None, M=None):
+    """__eq__/__hash__ coherence of the IR node classes (shared with C05/C13: the simplifier's cancellation rules and its fixpoint test rely on ==)."""
+    mod = mod or ctx.mod('expression')
+    M = M or Matrix(mod)
     for c in NODE_CLASSES:
         meths = M.methods[c]
         cdef = mod.cls(c)
@@ -201,6 +190,25 @@ def run(ctx, report):
         R1.ok('Expr.__ne__', sample='Expr.__ne__ -> ' + u(rets[0].value))
     else:
         R1.violation('Expr.__ne__', 'Expr.__ne__', '__ne__ is not the negation of __eq__', where(mod, ne))
+
+
+
+def run(ctx, report):
+    mod = ctx.mod('expression')
+    hlp = ctx.mod('expr_helper')
+    M = Matrix(mod)
+    report.explanation = (
+        'Field/method matrix over the 8 IR node classes of expression.py: D1 __hash__ fields are a subset of __eq__ fields, '
+        '__eq__ compares every constructor field (metadata table excepted) pairwise with the same field of the other operand and '
+        'tests the class, __ne__ is its negation; D2 copy() and visit() rebuild from all fields, recurse into every '
+        'sub-expression field, copy() never returns self, every visit is wrapped by visit_chk; D3 replace_expr/copy go through visit; '
+        'D4 every operand-reordering call site is control-dependent on membership in a list of commutative operators.')
+    report.not_decided = 'value preservation for concrete valuations (behaviour of the callbacks), sharing inside non-node containers.'
+    report.analysed['matrix'] = dict((c, {'fields': M.fields[c], 'expr_fields': M.expr_fields(c), 'eq_fields': M.eq_fields(c)})
+                                     for c in NODE_CLASSES)
+
+    R1 = report.rule('C15.D1', 'eq/hash coherence per node class', floor=8)
+    eq_rule(ctx, R1, mod, M)
 
     R2 = report.rule('C15.D2', 'copy/visit completeness per node class', floor=16)
     # flags stored on freshly constructed nodes outside expression.py (the evaluator marks unknown memory cells as terminal)
